@@ -555,7 +555,7 @@ func numOneDurText(s *numStats, dr *h.Driver, ns int64) {
 		if want := dr.Ask(op); want == "range" {
 			s.skipped++ // months field of period.NewOf negative (mixed-sign period): outside the model, inside the known finding
 			s.evals["durtext:negative-months-outside-model"]++
-			if absD(d) < days3277 || !strings.Contains(text, "P-") {
+			if ip := strings.IndexByte(text, 'P'); absD(d) < days3277 || ip < 0 || !strings.Contains(text[ip:], "-") {
 				s.mismatch(op, text, want, "the model declares a duration outside its domain that the library writes as an ordinary text")
 			}
 		} else if want != text {
@@ -1645,7 +1645,7 @@ func TestNumeric(t *testing.T) {
 		"dur 117935999", "dur 117936000", "dur 117972000", "dur 115956000", "dur 115920000", // 3276 h, 3277 h; 3220.5 h (the parser's ripple)
 		"dur 2831327999", "dur 2831328000", "dur -2831328000", "dur 2831328001", // 3277 days - 100 ms, 3277 days
 		"durns 150000000", "durns -1", "durns 99999999", "durns 3600000000001",
-		"dtext 0", "dtext 5990000000", "dtext -5990000000", "dtext 604800000000000", "dtext 11793600000000000", "dtext 283132799900000000", "dtext 283132800000000000", "dtext -50000000", "dtext 9223372036854775807", "dtext 8583573421155919265", "dtext 3250454086230841373", "durns 8583573421155919265", "dparse -P-272Y1M-30DT-21H",
+		"dtext 0", "dtext 5990000000", "dtext -5990000000", "dtext 604800000000000", "dtext 11793600000000000", "dtext 283132799900000000", "dtext 283132800000000000", "dtext -50000000", "dtext 9223372036854775807", "dtext 8583573421155919265", "dtext 3250454086230841373", "dtext -4291753169893406838", "durns 8583573421155919265", "dparse -P-272Y1M-30DT-21H",
 		"dparse PT3276H", "dparse PT3220H30M", "dparse P1Y2M3W4DT5H6M7.8S", "dparse P1.5Y2M", "dparse P1.5Y2.5M", "dparse PT1H1H", "dparse P1W1D", "dparse P1DT", "dparse P", "dparse -P0D", "dparse P0", "dparse -P0",
 		"dparse PT90M", "dparse P40000D", "dparse P4000D", "dparse PT1,55S", "dparse PT.5S", "dparse PT5.S", "dparse P1T1H", "dparse PT1HT1M", "dparse P1H", "dparse PT1D", "dparse P1", "dparse 1D", "dparse +P1D", "dparse P3277Y", "dparse P3276.7Y", "dparse P300Y",
 		"instant 0 0", "instant -62135596800 0", "instant 253402300799 0", "instant 1727352000 7200", "instant 951782400 -34200",
